@@ -72,9 +72,7 @@ def run(ctx):
     traces = ctx.exec_scenarios(binary, scen, "c14", shards=14, timeout=1500)
     if len(traces) != len(scen) and not any(t.get("crashed") for t in traces):
         raise Inconclusive("%d scenarios, %d traces" % (len(scen), len(traces)))
-    dead = [t["id"] for t in traces if any(e.get("event") == "DriverDead" for e in t["events"])]
-    if dead:
-        raise Inconclusive("driver could not complete scenarios %s" % dead[:5])
+    traces = ctx.drop_dead(traces)
     nev = sum(len(t["events"]) for t in traces)
     ctx.sample({"scenario": traces[0]["scenario"], "events": traces[0]["events"][:8]})
     ctx.sample({"scenario": traces[-1]["scenario"], "events": traces[-1]["events"]})
